@@ -669,3 +669,228 @@ def _is_angle(t, depth=0):
         if t[1] == "Div":
             return _is_angle(a, depth + 1) and not _has_coord_read(b)
     return False
+
+
+# ---------------------------------------------------------------------------------------------------------------------
+# R-ELLPS-IDENTITIES (C06): derived shape parameters satisfy their defining identities, as rational functions of (a, f)
+
+def _ratfun(f, t, facts, depth=0):
+    """term -> (numerator Poly, denominator Poly, squared?) over the symbols a, f; None if not rational.
+    `sqrt(X)` is only accepted at the top (handled by the caller)."""
+    from poly import Poly
+    import elems as E
+    t = mir.strip_refs(t)
+    if depth > 40:
+        return None
+    v = _fnum(t)
+    if v is not None:
+        from fractions import Fraction
+        return (Poly.const(Fraction(v).limit_denominator(10**9)), Poly.const(1))
+    if t[0] == "cast":
+        return _ratfun(f, t[2], facts, depth + 1)
+    if t[0] == "un" and t[1] == "Neg":
+        r = _ratfun(f, t[2], facts, depth + 1)
+        return None if r is None else (Poly.const(0) - r[0], r[1])
+    if t[0] == "bin" and t[1] in ("Add", "Sub", "Mul", "Div"):
+        a, b = _ratfun(f, t[2], facts, depth + 1), _ratfun(f, t[3], facts, depth + 1)
+        if a is None or b is None:
+            return None
+        if t[1] == "Add":
+            return (a[0] * b[1] + b[0] * a[1], a[1] * b[1])
+        if t[1] == "Sub":
+            return (a[0] * b[1] - b[0] * a[1], a[1] * b[1])
+        if t[1] == "Mul":
+            return (a[0] * b[0], a[1] * b[1])
+        return (a[0] * b[1], a[1] * b[0])
+    if t[0] == "call" and isinstance(t[1], str):
+        tail = t[1].rsplit("::", 1)[-1]
+        if "EllipsoidBase" in t[1] or t[1].startswith("ellipsoid::"):
+            if tail in ("semimajor_axis", "a"):
+                return (Poly.sym("a"), Poly.const(1))
+            if tail in ("flattening", "f"):
+                return (Poly.sym("f"), Poly.const(1))
+            if facts.has_fn("ellipsoid::EllipsoidBase::" + tail):
+                g = facts.fn("ellipsoid::EllipsoidBase::" + tail)
+                rt = E.return_term(g)
+                if rt is not None and rt[0] != "phi":
+                    return _ratfun(g, rt, facts, depth + 1)
+            return None
+        if tail == "recip" and t[2]:
+            r = _ratfun(f, t[2][0], facts, depth + 1)
+            return None if r is None else (r[1], r[0])
+        if tail == "powi" and len(t[2]) == 2 and t[2][1][0] == "const" and isinstance(t[2][1][2], int) and 0 <= t[2][1][2] <= 6:
+            r = _ratfun(f, t[2][0], facts, depth + 1)
+            if r is None:
+                return None
+            n, d = Poly.const(1), Poly.const(1)
+            for _ in range(t[2][1][2]):
+                n, d = n * r[0], d * r[1]
+            return (n, d)
+    return None
+
+
+@rule("R-ELLPS-IDENTITIES", ["C06"])
+def r_ellps_identities(cx):
+    """The derived parameters of EllipsoidBase are rational functions of the semimajor axis a and the flattening f (or
+    square roots of such). Each is brought to a quotient of polynomials by inlining the accessors it calls, and
+    compared - by cross multiplication, exactly - with its defining identity: b = a(1-f), second flattening
+    f/(1-f) = (a-b)/b, third flattening f/(2-f) = (a-b)/(a+b), aspect ratio... , e^2 = f(2-f), e'^2 = e^2/(1-e^2),
+    polar radius of curvature a/(1-f); for the square roots (e, e', linear eccentricity) the squares are compared."""
+    from poly import Poly
+    import elems as E
+    a, f1 = Poly.sym("a"), Poly.sym("f")
+    one, two = Poly.const(1), Poly.const(2)
+    es = f1 * (two - f1)
+    want = {
+        "semiminor_axis": (a * (one - f1), one, False),
+        "second_flattening": (f1, one - f1, False),
+        "third_flattening": (f1, two - f1, False),
+        "aspect_ratio": (one, one - f1, False),      # as implemented upstream: a/b
+        "eccentricity_squared": (es, one, False),
+        "eccentricity": (es, one, True),
+        "second_eccentricity_squared": (es, (one - f1) * (one - f1), False),
+        "second_eccentricity": (es, (one - f1) * (one - f1), True),
+        "polar_radius_of_curvature": (a, one - f1, False),
+    }
+    n = 0
+    for name, (wn, wd, squared) in sorted(want.items()):
+        full = "ellipsoid::EllipsoidBase::" + name
+        if not cx.f.has_fn(full):
+            cx.ob("R-ELLPS-IDENTITIES", name, False, "anchor-missing: %s" % full)
+            continue
+        g = cx.f.fn(full)
+        rt = E.return_term(g)
+        n += 1
+        ok = False
+        why = "its value is not a rational function of a and f that the analysis can read"
+        if rt is not None:
+            t = mir.strip_refs(rt)
+            sq = False
+            if t[0] == "call" and isinstance(t[1], str) and t[1].endswith("::sqrt") and t[2]:
+                t = t[2][0]
+                sq = True
+            r = _ratfun(g, t, cx.f)
+            if r is not None and sq == squared:
+                ok = (r[0] * wd) == (wn * r[1])
+                why = "it is (%s) / (%s)" % (r[0], r[1])
+            elif r is not None:
+                why = "a square root is %s" % ("missing" if squared else "unexpected")
+        cx.ob("R-ELLPS-IDENTITIES", name, ok,
+              "%s satisfies its defining identity in (a, f)" % name if ok else
+              "EllipsoidBase::%s does not satisfy its defining identity as a function of a and f: %s" % (name, why),
+              cx.where(g.d["span"]))
+    cx.count("R-ELLPS-IDENTITIES", "parameters", n)
+
+
+# ---------------------------------------------------------------------------------------------------------------------
+# R-RECTIFY-ROTATION (C05, C01): omerc's skew-to-rectified step is a rotation
+
+def _fpoly(t, S, C, depth=0):
+    """floating point expression -> polynomial; sin/cos of the rectification angle are the symbols S, C, every other
+    non-arithmetic subterm is an opaque symbol"""
+    from poly import Poly
+    t = mir.strip_refs(t)
+    if t == S:
+        return Poly.sym("S")
+    if t == C:
+        return Poly.sym("C")
+    if depth > 50:
+        return Poly.sym(repr(t))
+    v = _fnum(t)
+    if v is not None:
+        from fractions import Fraction
+        return Poly.const(Fraction(v).limit_denominator(10**12))
+    if t[0] == "cast":
+        return _fpoly(t[2], S, C, depth + 1)
+    if t[0] == "un" and t[1] == "Neg":
+        return -_fpoly(t[2], S, C, depth + 1)
+    if t[0] == "bin" and t[1] in ("Add", "Sub", "Mul"):
+        a, b = _fpoly(t[2], S, C, depth + 1), _fpoly(t[3], S, C, depth + 1)
+        return a + b if t[1] == "Add" else (a - b if t[1] == "Sub" else a * b)
+    return Poly.sym(repr(t))
+
+
+def _coef(p, sym):
+    """coefficient polynomial of sym^1 in p, and the remainder; None if sym occurs with another power"""
+    from poly import Poly
+    co, rest = {}, {}
+    for k, v in p.t.items():
+        d = dict(k)
+        e = d.pop(sym, 0)
+        if e == 0:
+            rest[k] = v
+        elif e == 1:
+            co[tuple(sorted(d.items()))] = v
+        else:
+            return None
+    return Poly(co), Poly(rest)
+
+
+@rule("R-RECTIFY-ROTATION", ["C05", "C01"])
+def r_rectify_rotation(cx):
+    """The oblique Mercator turns skew (u, v) coordinates into easting/northing - and back - by a rotation through
+    gamma_c. Every pair of values written (forward: x, y) or every pair (u, v) recomputed (inverse) is, as a polynomial
+    in S = sin(gamma_c), C = cos(gamma_c) and opaque symbols for everything else, of the form
+        first  = C p + S q + ...,   second = C q - S p + ...     (up to a common sign):
+    the rows (p, q), (q, -p) are orthogonal and of equal length, so the map is conformal; a sign slip in one of the four
+    terms makes it a shear."""
+    import pertuple
+    import elems as E
+    n = 0
+    for fn in ("inner_op::omerc::fwd", "inner_op::omerc::inv"):
+        f = cx.f.fn(fn)
+        # S, C: the two projections of sin_cos(gamma_c) that occur in products
+        sincos = {}
+        for bb, t in f.calls():
+            if (f.callee(t) or "").endswith("::sin_cos"):
+                ct = f.call_term(t, bb)
+                sincos[bb] = (("proj", ct, ("f", 0)), ("proj", ct, ("f", 1)))
+        pairs = []
+        if fn.endswith("fwd"):
+            from rules.projections import written_xy_terms
+            for pt in pertuple.per_tuple_loops(f):
+                for (bb, e, nn) in written_xy_terms(f, pt):
+                    pairs.append((bb, e, nn, f.term(bb)["span"]))
+        else:
+            # the inverse: the two statements `v = .. cc .. sc`, `u = .. cc .. sc`: take the Sub/Add assignments in
+            # the per-tuple loop that mention both projections of one sin_cos
+            cands = []
+            for bb, i, s in f.all_stmts():
+                if s["k"] == "assign" and s["rv"]["k"] == "bin" and s["rv"].get("op") in ("Add", "Sub") and \
+                        f.innermost_loop(bb) is not None and "f64" in str(f.local_ty(s["place"]["l"])):
+                    t = f.rvalue(s["rv"], (bb, i))
+                    for key, (S, C) in sincos.items():
+                        if _mentions_term2(t, S) and _mentions_term2(t, C):
+                            cands.append((bb, i, t, key, s.get("span")))
+            # keep the minimal expressions (those that contain no other candidate): the rotation itself
+            tops = [c for c in cands if not any(c is not d and c[2] != d[2] and _mentions_term2(c[2], d[2]) for d in cands)]
+            by = {}
+            for c in tops:
+                by.setdefault(c[3], []).append(c)
+            for key, cs in by.items():
+                if len(cs) == 2:
+                    pairs.append((cs[0][0], cs[0][2], cs[1][2], cs[0][4] or f.d["span"]))
+        for (bb, e, nn, span) in pairs:
+            used = None
+            for key, (S, C) in sincos.items():
+                if _mentions_term2(e, S) and _mentions_term2(e, C) and _mentions_term2(nn, S) and _mentions_term2(nn, C):
+                    used = (S, C)
+            if used is None:
+                continue
+            S, C = used
+            pe, pn = _fpoly(e, S, C), _fpoly(nn, S, C)
+            ce, cn = (_coef(pe, "C"), _coef(pe, "S")), (_coef(pn, "C"), _coef(pn, "S"))
+            n += 1
+            ok = False
+            why = "the expressions are not linear in sin/cos of the rectification angle"
+            if all(x is not None for x in ce + cn):
+                eC, eS, nC, nS = ce[0][0], ce[1][0], cn[0][0], cn[1][0]
+                dot = eC * nC + eS * nS
+                norm = (eC * eC + eS * eS) - (nC * nC + nS * nS)
+                ok = dot.is_zero() and norm.is_zero() and not (eC.is_zero() and eS.is_zero())
+                why = "its rows are not orthogonal / of equal length (a shear, not a rotation)"
+            cx.ob("R-RECTIFY-ROTATION", "%s/pair%d" % (fn, n - 1), ok,
+                  "%s: the step between skew and rectified coordinates is a rotation through gamma_c" % fn if ok else
+                  "%s: the step between skew (u, v) and rectified coordinates is not a rotation: %s" % (fn, why),
+                  cx.where(span))
+    cx.count("R-RECTIFY-ROTATION", "pairs", n)
